@@ -145,7 +145,7 @@ class Repo:
         m = self.modules.get(modpath)
         if m is None or depth > 8:
             return None
-        for st in m.tree.body:
+        for st in ast.walk(m.tree):
             if isinstance(st, ast.ImportFrom) and any(a.name == "*" for a in st.names):
                 mp = self.module_path(st.module)
                 if mp:
@@ -218,7 +218,7 @@ class Repo:
 
     def func(self, key):
         """key = 'path::func' or 'path::Class.method' -> (FunctionDef, modpath, classname|None)"""
-        path, q = key.split("::")
+        path, q = key.split("#")[0].split("::")
         if "." in q:
             cn, mn = q.split(".")
             fn, owner = self.find_method(cn, mn)
